@@ -286,7 +286,7 @@ func init() {
 						c := inst(mod+"/"+pkg, "VerifC16", en, itoa(n))
 						c.StepBudget, c.StepsPerByte, c.StepIsViol = 50000, 4000, true
 						c.AllocBudget, c.AllocPerByte, c.AllocIsViol = 1<<16, 64, true
-						c.MaxWallS = tierW(tier, 20, 600)
+						c.MaxWallS = tierW(tier, 8, 300)
 						r = append(r, c)
 					}
 				}
@@ -318,13 +318,15 @@ func init() {
 		Instances: func(tier string, L *Loaded) []*HarnessCfg {
 			var r []*HarnessCfg
 			p := mod + "/mp4"
-			layouts := []string{"1x1", "2x1", "1x3", "2x2", "1x2,1x1", "2x1,1x2", "1x1,1x3,1x1"}
+			layouts := []string{"1x1", "1x3", "2x2", "2x1,1x2", "1x1,1x3,1x1"}
+			optsList := []int{0, 5, 11}
 			if tier == "thorough" {
-				layouts = append(layouts, "3x2", "2x2,1x1,1x2", "1x3,2x1,1x2", "2x3,1x2")
+				layouts = append(layouts, "2x1", "1x2,1x1", "3x2", "2x2,1x1,1x2", "1x3,2x1,1x2", "2x3,1x2")
+				optsList = []int{0, 1, 3, 4, 5, 7, 8, 9, 11, 12, 13, 15}
 			}
 			for _, lay := range layouts {
 				for ns := 1; ns <= tierN(tier, 2, 3); ns++ {
-					for _, dec := range []string{"false", "true"} {
+					for vi, dec := range []string{"false", "true"} {
 						for v := 0; v < 4; v++ {
 							co64, uni := "false", "false"
 							if v&1 == 1 {
@@ -333,11 +335,16 @@ func init() {
 							if v&2 == 2 {
 								uni = "true"
 							}
-							if tier != "thorough" && dec == "true" && v != 0 && v != 3 {
+							if tier != "thorough" && v != 0 && v != 3 {
 								continue
 							}
-							r = append(r, inst(p, "VerifC09Tables", lay, itoa(ns), dec, co64, uni))
-							r = append(r, inst(p, "VerifC09Intervals", lay, itoa(ns), dec, co64, uni))
+							for oi, o := range optsList {
+								if tier != "thorough" && (oi+vi+v)%2 == 1 {
+									continue
+								}
+								r = append(r, inst(p, "VerifC09Tables", lay, itoa(ns), dec, co64, uni, itoa(o)))
+								r = append(r, inst(p, "VerifC09Intervals", lay, itoa(ns), dec, co64, uni, itoa(o)))
+							}
 						}
 					}
 					r = append(r, inst(p, "VerifC09Time", lay, itoa(ns)))
